@@ -7,6 +7,7 @@ import (
 	"io"
 	"net/http"
 	"strings"
+	"time"
 
 	mcp "trpc.group/trpc-go/trpc-mcp-go"
 	"verif.local/engine/explore"
@@ -261,6 +262,7 @@ func init() {
 		c.Assume = append(c.Assume, "the stdio child is modelled by pipes plus the process-watcher effect; exec, signals, pids and OS file descriptors are not exercised", "connection release is judged on memnet response bodies", "virtual time: 'promptly' = returned at quiescence after the fault while the handler is still blocked")
 		c.Enumerate("c08/truncate")
 		c.Enumerate("c08/get-refused")
+		c.Enumerate("c08/retry-cancel")
 		for _, cfg := range c08Configs() {
 			pb := c.Pick(2, 3)
 			if cfg.N == 2 || (cfg.Mode == "ls" && (cfg.Fault == "reset" || cfg.Fault == "eof")) {
@@ -539,7 +541,86 @@ func c08GetRefused(tier string, i int) CaseResult {
 	return cr
 }
 
+// c08RetryCancel: with retry configured the call spends most of its time waiting between
+// attempts; a cancelled context (or a deadline) must end it at once, not at the next attempt.
+func c08RetryCancel(tier string, i int) CaseResult {
+	mode := []string{"sj", "ss", "ls"}[i%3]
+	how := []string{"cancel", "deadline"}[i/3]
+	cr := CaseResult{Desc: fmt.Sprintf("client=%s with retry, every attempt answered 503, %s during the wait between attempts", mode, how), Nontrivial: true}
+	var viol []explore.Violation
+	obs := &hx.Log{}
+	k := func(s string) string { return fmt.Sprintf("%s:retry-%s:%s", s, how, mode) }
+	res := vsched.Run(vsched.Config{}, func() {
+		ss := newScriptedServer(mode)
+		attempts := 0
+		ss.onRequest = func(msg map[string]interface{}, raw string, w scriptWriter) bool {
+			if m, _ := msg["method"].(string); m == "tools/call" {
+				attempts++
+				w.HTTP(503, "text/plain", "busy")
+				return true
+			}
+			return false
+		}
+		cl, err := ss.connect(mcp.WithRetry(mcp.RetryConfig{MaxRetries: 5, InitialBackoff: 10 * time.Second, BackoffFactor: 2, MaxBackoff: time.Minute}))
+		if err != nil {
+			viol = append(viol, V("setup-handshake-fails", "setting the scenario up with well-behaved peers fails: %v", err))
+			return
+		}
+		vsched.Quiesce()
+		var ctx context.Context
+		var cancel context.CancelFunc
+		ctx, cancel = vcontext.WithCancel(context.Background())
+		if how == "deadline" {
+			// a deadline in virtual time: a timer of the harness cancels the context 3 s in, i.e. inside the first wait of 10 s
+			vsched.Go("deadline", func() { vsched.Sleep(3 * time.Second); cancel() })
+		}
+		defer cancel()
+		done := &hx.Flag{}
+		var cerr error
+		vsched.Go("caller", func() {
+			rq := &mcp.CallToolRequest{}
+			rq.Params.Name = "t"
+			_, cerr = cl.CallTool(ctx, rq)
+			done.Set()
+		})
+		vsched.Quiesce() // first attempt refused; the client now waits 10 s before the second
+		if done.Get() {
+			viol = append(viol, V(k("no-retry"), "the call returned (%v) after %d attempt(s) although retry is configured", cerr, attempts))
+			return
+		}
+		if how == "cancel" {
+			cancel()
+			vsched.Quiesce()
+		} else {
+			vsched.Sleep(4 * time.Second) // past the deadline, 6 s before the wait would end
+			vsched.Quiesce()
+		}
+		if !done.Get() {
+			viol = append(viol, V(k("call-hangs"), "the call is still waiting for its next attempt although its context ended; blocked: %v", vsched.LiveThreads()))
+		} else if cerr == nil {
+			viol = append(viol, V(k("result-after-fault"), "the call returned a result although its context ended and every attempt was refused"))
+		}
+		if attempts != 1 {
+			viol = append(viol, V(k("attempts"), "%d attempts were made, 1 expected before the context ended", attempts))
+		}
+		cl.Close()
+		vsched.Quiesce()
+		if leaked := libraryThreads(vsched.LiveThreads()); len(leaked) > 0 {
+			viol = append(viol, V(k("goroutine-leak"), "after Close these library goroutines are still alive: %v", leaked))
+		}
+		obs.Add("attempts=%d", attempts)
+		ss.stop()
+	})
+	o := finishOutcome(res, obs, viol, true)
+	cr.ObsKey = cr.Desc + o.ObsKey
+	cr.Violations = o.Violations
+	cr.Broken = o.Broken
+	return cr
+}
+
 func init() {
+	RegisterEnum(&Enum{Name: "c08/retry-cancel", Doc: "clients with retry configured, every attempt answered 503: the context is cancelled (or its deadline passes) during the wait between two attempts; the call ends at once",
+		Count: func(string) int { return 6 }, Eval: c08RetryCancel})
 	RegisterEnum(&Enum{Name: "c08/get-refused", Doc: "Streamable client whose automatic listening stream is refused (405, 404, 400, 500, 503, 401, each with a body): calls work, and after Close no goroutine or response body of the refused exchange is left",
 		Count: func(string) int { return 12 }, Eval: c08GetRefused})
 	for _, cfg := range c08HsConfigs() {
